@@ -542,7 +542,7 @@ def search(ctx, seeds, full=False):
     # 1. the disagreeing cases first
     region_seeds = [s for s in seeds if s.get('kind') == 'region'][:200]
     def enough():
-        return len([f for f in fails if not classes_flat(f)]) >= 5
+        return len([f for f in fails if not classes_flat(f)]) >= 5 or len(fails) >= 60
     for s in [s for s in seeds if s.get('kind') in ('insp', 'wrap')][:40]:
         img = img_of_case(s)
         fam = [('seed', G.unpack_sizes(s['sizes']))] + search_family(ctx, img, rng, True)
